@@ -47,7 +47,7 @@ def default_case(**kw) -> dict:
     return c
 
 
-PASSWORD = "pässw0rd-パス"
+PASSWORD = "pässw0rd-パス-\U0001F511"  # Latin-1, kana and an astral character: every UTF-16 encoding class goes through both key derivations
 
 
 def password_of(case: dict):
